@@ -37,11 +37,11 @@ def perturb(rng, s):
         return s + rng.choice(['@gmail.com', '.com', 'www.' , '@x.org', '.net/a'])
     return s[:i] + s[i + 1:]
 
-def load_scorer(path):
+def load_scorer(path, limit=0):
     repo.scratch()
     from lib_scorer.pcfg_password_scorer import PCFGPasswordScorer
     from lib_scorer.grammar_io import load_grammar
-    sc = PCFGPasswordScorer(limit=0)
+    sc = PCFGPasswordScorer(limit=limit)
     buf = io.StringIO()
     with contextlib.redirect_stdout(buf), contextlib.redirect_stderr(buf):
         if not load_grammar(sc, path):
@@ -146,6 +146,15 @@ def check_case(run, case):
                 if sc2.parse(s) != first[s]:
                     run.violation(f'score of {s!r} differs on a second, freshly loaded scorer', case, observed=sc2.parse(s), expected=first[s]); return
             run.ev('history_independence_checked', len(order))
+            # the probability is a function of (string, ruleset): the classification cut-off (--limit) may change the category, never the number
+            for lim in rng.sample([1e-12, 1e-6, 0.004, 0.03, 0.2, 0.9], 2):
+                scl = load_scorer(path, limit=lim)
+                for s in order:
+                    r = scl.parse(s)
+                    if r[2] != first[s][2] or r[3] != first[s][3]:
+                        run.violation(f'probability / OMEN level of {s!r} changes with the classification cut-off --limit {lim}: {r[2]!r} vs {first[s][2]!r}', case,
+                                      observed=r, expected=first[s]); return
+                run.ev('limit_variants_checked')
         finally:
             sp.email_detection, sp.website_detection = oe, ow
         run.case()
@@ -156,7 +165,7 @@ def check_case(run, case):
         repo.drop_rules(name)
 
 def run(run, rng):
-    run.required_events = ['scored', 'nonzero_scores', 'emails_classified', 'websites_classified', 'history_independence_checked']
+    run.required_events = ['scored', 'nonzero_scores', 'emails_classified', 'websites_classified', 'history_independence_checked', 'limit_variants_checked']
     run.min_distinct = 20
     run.assumptions = ['guesser language = default flags, non-Markov pre-terminals (the PCFG probability of the scorer does not cover OMEN guesses)',
                        'probabilities compared with relative tolerance 1e-9', 'candidates containing letters outside the one-to-one case domain are the recorded finding F-C13']
